@@ -29,7 +29,7 @@ PURE_OPS = ['trim_note_sequence', '_extract_subsequences', 'extract_subsequence'
 IMPURE_OPS = ['stretch_note_sequence__in_place', 'transpose_note_sequence__in_place', '_quantize_notes']
 
 A_THEOREMS = ['pure_sound', 'pure_sound_all', 'pure_sound_raise', 'fresh_result_sound', 'exec_sound']
-OPS_THEOREMS = (['pure_' + n for n in PURE_OPS]
+OPS_THEOREMS = (['pure_' + n for n in PURE_OPS] + ['fresh_' + n for n in PURE_OPS]
                 + ['contract__quantize_notes', 'impure_stretch_note_sequence_in_place',
                    'impure_transpose_note_sequence_in_place', 'impure__quantize_notes'])
 
@@ -346,8 +346,9 @@ class Case:
     """one call: op name, list of argument NoteSequences (observed), python args, expectations"""
 
     def __init__(self, op, seqs, call, kind, expect_raise=None, quantized=False, max_mult=1, pitch_shift=None,
-                 wf=True, desc=None):
+                 wf=True, desc=None, pylists=None):
         self.op, self.seqs, self.call, self.kind = op, seqs, call, kind
+        self.pylists = pylists or []           # Python lists handed to the operation itself (observed like the sequences)
         self.expect_raise, self.quantized, self.max_mult, self.pitch_shift, self.wf = expect_raise, quantized, max_mult, pitch_shift, wf
         self.desc = desc or {}
 
@@ -431,8 +432,9 @@ def gen_cases(sl, g, rng, op):
                 exp = 'QuantizationStatusError'
             elif len(ts) < 2 or any(x > y for x, y in zip(ts, ts[1:])) or any(x >= ns.total_time for x in ts[:-1]):
                 exp = 'ValueError'
-            yield Case(op, [ns], lambda: sl._extract_subsequences(ns, list(ts)), 'raise' if exp else 'legal',
-                       expect_raise=exp, desc={'split_times': ts})
+            ts_arg = list(ts)
+            yield Case(op, [ns], lambda: sl._extract_subsequences(ns, ts_arg), 'raise' if exp else 'legal',
+                       expect_raise=exp, desc={'split_times': ts}, pylists=[ts_arg])
     elif op == 'split_note_sequence':
         ns = g.seq(quantized=raising and r.random() < 0.5)
         q = sl.is_quantized_sequence(ns)
@@ -446,8 +448,9 @@ def gen_cases(sl, g, rng, op):
         if isinstance(hop, list):
             # listed split times at / past the end may or may not be rejected by _extract_subsequences
             dicey = q or ns.total_time == 0 or any(h >= ns.total_time for h in hop)
-            yield Case(op, [ns], lambda: sl.split_note_sequence(ns, copy.copy(hop), skip), 'any' if dicey else 'legal',
-                       desc={'hop': hop, 'skip': skip})
+            hop_arg = list(hop)
+            yield Case(op, [ns], lambda: sl.split_note_sequence(ns, hop_arg, skip), 'any' if dicey else 'legal',
+                       desc={'hop': hop, 'skip': skip}, pylists=[hop_arg])
         else:
             exp = 'QuantizationStatusError' if (q and ns.total_time > 0 and hop < ns.total_time or q and ns.total_time > 0) else None
             yield Case(op, [ns], lambda: sl.split_note_sequence(ns, hop, skip), 'raise' if exp else 'legal',
@@ -528,21 +531,35 @@ def gen_cases(sl, g, rng, op):
             seqs[r.randrange(k)] = seqs[0]                          # the same object twice
         if op == 'merge_sequences':
             distinct = {id(s) for s in seqs}
-            yield Case(op, seqs, lambda: sl.merge_sequences(list(seqs)), 'legal',
-                       max_mult=None if len(distinct) < len(seqs) else 1, desc={'n': k})
+            seq_arg = list(seqs)
+            yield Case(op, seqs, lambda: sl.merge_sequences(seq_arg), 'legal',
+                       max_mult=None if len(distinct) < len(seqs) else 1, desc={'n': k}, pylists=[seq_arg])
         else:
             durs = None
-            if r.random() < 0.5:
+            if r.random() < 0.6:
+                # explicit durations: exactly total_time, longer, and (raising share) the ends of the range: 0 / 0.0 for a
+                # sequence that is not empty, 1 ulp short, half, wrong length
                 durs = [s.total_time + r.choice([0.0, 0.0, 0.5, 2.0]) for s in seqs]
                 if raising and durs:
-                    if r.random() < 0.5:
+                    m = r.random()
+                    i = r.randrange(len(durs))
+                    if m < 0.25:
                         durs = durs[:-1] + ([] if r.random() < 0.5 else [durs[-1], 1.0])
+                    elif m < 0.45:
+                        durs[i] -= 0.5
+                    elif m < 0.75:
+                        durs[i] = r.choice([0, 0.0])                # zero: legal only for a sequence of total_time 0
+                        if r.random() < 0.3:
+                            durs = [r.choice([0, 0.0]) for _ in durs]
+                    elif m < 0.9:
+                        durs[i] = nswire.nextafter_n(seqs[i].total_time, -1) if seqs[i].total_time > 0 else 0.0
                     else:
-                        durs[r.randrange(len(durs))] -= 0.5
-            anyq = any(sl.is_quantized_sequence(x) for x in seqs)
-            yield Case(op, seqs, lambda: sl.concatenate_sequences(list(seqs), None if durs is None else list(durs)),
-                       'any' if (raising or anyq) else 'legal',
-                       max_mult=None if len({id(s) for s in seqs}) < len(seqs) else 1, desc={'n': k, 'durations': durs})
+                        durs[i] = seqs[i].total_time / 2
+            exp, kind = concat_expectation(sl, seqs, durs)
+            seq_arg, dur_arg = list(seqs), None if durs is None else list(durs)
+            yield Case(op, seqs, lambda: sl.concatenate_sequences(seq_arg, dur_arg), kind, expect_raise=exp,
+                       max_mult=None if len({id(s) for s in seqs}) < len(seqs) else 1, desc={'n': k, 'durations': durs},
+                       pylists=[seq_arg] + ([dur_arg] if dur_arg is not None else []))
     elif op == 'repeat_sequence_to_duration':
         ns = g.seq(quantized=raising and r.random() < 0.3, max_notes=r.choice([0, 1, 3, 6]))
         dur = r.choice([0.5, 1.0, 3.0, 7.5, r.uniform(0.1, 12.0)])
@@ -579,6 +596,31 @@ def gen_cases(sl, g, rng, op):
         raise ValueError(op)
 
 
+def concat_expectation(sl, seqs, durs):
+    """what concatenate_sequences is documented to do with these arguments -> (expected exception names | None, kind).
+    'ValueError: If the length of sequences and sequence_durations do not match or if a specified duration is less
+    than the total_time of the sequence' - a duration of 0 for a sequence with total_time > 0 IS less.  Pieces after the
+    first positive offset are shifted, and shifting a quantized sequence raises QuantizationStatusError.  An empty
+    durations list is not distinguishable from None for the code (left to 'any' when there are sequences)."""
+    if durs is not None and len(durs) == 0 and seqs:
+        return None, 'any'
+    problems = set()
+    if durs and len(durs) != len(seqs):
+        return {'ValueError'}, 'raise'
+    cur = 0.0
+    for i, s in enumerate(seqs):
+        if durs and durs[i] < s.total_time:
+            problems.add('ValueError')
+        if cur > 0 and sl.is_quantized_sequence(s):
+            problems.add('QuantizationStatusError')
+        cur = cur + durs[i] if durs else cur + s.total_time
+    if problems:
+        return problems, 'raise'
+    if any(sl.is_quantized_sequence(s) for s in seqs):
+        return None, 'any'
+    return None, 'legal'
+
+
 def g_t(r, ns):
     """a time related to the sequence: one of its own times, inside, at the end, beyond"""
     k = r.random()
@@ -604,37 +646,135 @@ ACCEPTED_ERRORS = {
 }
 
 
+def scramble(ns, salt=1):
+    """the caller edits a NoteSequence it was handed back: every kind of in-place edit protobuf offers"""
+    from note_seq.protobuf import music_pb2
+    for n in ns.notes:
+        n.pitch = (n.pitch + 5 + salt) % 128
+        n.velocity = (n.velocity + 3) % 128
+        n.start_time += 1.0 + salt
+        n.end_time += 2.5 + salt
+        n.quantized_start_step += 3
+        n.quantized_end_step += 4
+        n.voice += 100000
+    if len(ns.notes) > 1:
+        del ns.notes[0]
+    x = ns.notes.add()
+    x.pitch, x.velocity, x.start_time, x.end_time, x.voice = 1, 1, 0.125, 9999.5, 424242
+    ns.notes.sort(key=lambda n: -n.start_time)
+    for f in EVENT_FIELDS:
+        rep = getattr(ns, f)
+        for e in rep:
+            e.time += 0.75 + salt
+        if len(rep) > 1:
+            del rep[-1]
+    for t in ns.tempos:
+        t.qpm += 11.0
+    for k in ns.key_signatures:
+        k.key = (k.key + 1) % 12
+    for t in ns.text_annotations:
+        t.text += '~'
+    ns.tempos.add(time=3.25, qpm=33.0)
+    ns.control_changes.add(time=0.5, control_number=64, control_value=1)
+    ns.section_annotations.add(time=77.0, section_id=99)
+    g = ns.section_groups.add()
+    g.num_times = 7
+    g.sections.add().section_id = 99
+    for g in ns.section_groups:
+        g.num_times += 1
+    ns.sequence_metadata.composers.append('edited')
+    ns.subsequence_info.start_time_offset += 1.0
+    ns.total_time += 1234.5
+    ns.total_quantized_steps += 17
+    ns.ticks_per_quarter += 1
+    ns.id += 'edited'
+    if salt % 2:
+        ns.quantization_info.steps_per_second += 1
+    return ns
+
+
+def pylist_snapshot(lst):
+    """identity of NoteSequence elements, exact value of numbers"""
+    return [('id', id(x)) if hasattr(x, 'SerializeToString') else ('v', type(x).__name__, repr(x)) for x in lst]
+
+
+def same_object(results, seqs):
+    """index pairs (i, j) with results[i] being the very object seqs[j]"""
+    return [(i, j) for i, o in enumerate(results) for j, s in enumerate(seqs) if o is s]
+
+
 def run_case(c):
-    """run one case twice on the real code; -> (list of property failures, outcome label)"""
+    """one short HISTORY on the real code; -> (list of property failures, outcome label)
+         call 1 -> r1          arguments byte-for-byte as before (also when it raised); Python list arguments too
+                               no NoteSequence of r1 is an argument object ("returns a NEW NoteSequence")
+         the caller edits r1   in place, every way protobuf offers: the arguments must still be byte-for-byte as before
+         call 2 -> r2          same outcome as call 1 had BEFORE the caller edited it; r2 shares no object with r1
+                               or the arguments; arguments unchanged
+       then well-formedness / traceability of r2 (a fresh, unedited result equal to r1 as returned)."""
     fails = []
     before = [ser(s) for s in c.seqs]
+    lists_before = [pylist_snapshot(l) for l in c.pylists]
     n_before = len(c.seqs)
-    outs = []
-    for _ in range(2):
-        try:
-            outs.append(('ok', c.call()))
-        except Exception as e:  # pylint: disable=broad-except
-            outs.append(('err', type(e).__name__, str(e)[:200]))
+
+    def args_changed(when):
         after = [ser(s) for s in c.seqs]
         if after != before or len(c.seqs) != n_before:
             which = [i for i, (a, b) in enumerate(zip(before, after)) if a != b]
-            fails.append('argument %s modified by the call (%s)' % (which, 'it raised ' + outs[-1][1] if outs[-1][0] == 'err' else 'it returned'))
-            return fails, 'mutated'
-    a, b = outs
-    if a[0] != b[0] or (a[0] == 'err' and a[1:] != b[1:]) or (a[0] == 'ok' and canon_result(a[1]) != canon_result(b[1])):
-        fails.append('second call gives a different result')
+            fails.append('argument %s modified %s' % (which, when))
+            return True
+        if [pylist_snapshot(l) for l in c.pylists] != lists_before:
+            fails.append('a Python list passed as an argument was modified %s' % when)
+            return True
+        return False
+
+    def one_call():
+        try:
+            return ('ok', c.call())
+        except Exception as e:  # pylint: disable=broad-except
+            return ('err', type(e).__name__, str(e)[:200])
+
+    a = one_call()
+    if args_changed('by the call (%s)' % ('it raised ' + a[1] if a[0] == 'err' else 'it returned')):
+        return fails, 'mutated'
+    canon_a = canon_result(a[1]) if a[0] == 'ok' else None
+    if a[0] == 'ok':
+        r1 = result_seqs(a[1])
+        same = same_object(r1, c.seqs)
+        if same:
+            fails.append('no new NoteSequence returned: result %d is the argument object %d itself' % same[0])
+        if len({id(o) for o in r1}) != len(r1):
+            fails.append('no new NoteSequence returned: the same object occurs twice in the result')
+        if not same:
+            for i, o in enumerate(r1):
+                scramble(o, i + 1)
+            if args_changed('when the caller edited the returned sequence in place (result and argument share memory)'):
+                return fails, 'aliased'
+    b = one_call()
+    if args_changed('by the second call (%s)' % ('it raised ' + b[1] if b[0] == 'err' else 'it returned')):
+        return fails, 'mutated'
+    if a[0] != b[0] or (a[0] == 'err' and a[1:] != b[1:]) or (a[0] == 'ok' and canon_result(b[1]) != canon_a):
+        fails.append('second call gives a different result' + (' (after the caller edited the first result in place)' if a[0] == 'ok' else ''))
+    if a[0] == 'ok' and b[0] == 'ok':
+        r2 = result_seqs(b[1])
+        if any(x is y for x in r2 for y in r1):
+            fails.append('no new NoteSequence returned: the second call hands back an object of the first result')
+        same = same_object(r2, c.seqs)
+        if same and not any('argument object' in f for f in fails):
+            fails.append('no new NoteSequence returned: result %d of the second call is the argument object %d itself' % same[0])
     label = 'ok' if a[0] == 'ok' else 'raise:' + a[1]
     if a[0] == 'err':
         if c.expect_raise is not None:
-            if a[1] != c.expect_raise:
-                fails.append('expected %s, got %s: %s' % (c.expect_raise, a[1], a[2]))
+            want = c.expect_raise if isinstance(c.expect_raise, (set, frozenset, list, tuple)) else [c.expect_raise]
+            if a[1] not in want:
+                fails.append('expected %s, got %s: %s' % ('/'.join(sorted(want)), a[1], a[2]))
         elif c.kind == 'legal' or a[1] not in ACCEPTED_ERRORS.get(c.op, set()):
             fails.append('unexpected %s on a %s input: %s' % (a[1], c.kind, a[2]))
         return fails, label
     if c.expect_raise is not None:
-        fails.append('expected %s, got a result' % c.expect_raise)
+        want = c.expect_raise if isinstance(c.expect_raise, (set, frozenset, list, tuple)) else [c.expect_raise]
+        fails.append('expected %s, got a result' % '/'.join(sorted(want)))
         return fails, label
-    res = result_seqs(a[1])
+    res = result_seqs(b[1]) if b[0] == 'ok' else []
     if all(wf_input(s) for s in c.seqs) and c.wf:
         for o in res:
             w = wf_result(o, c.quantized)
@@ -648,7 +788,8 @@ def run_case(c):
 
 
 def replay_obj(c, what):
-    return {'op': c.op, 'what': what, 'args': c.desc, 'kind': c.kind, 'expect_raise': c.expect_raise,
+    exp = sorted(c.expect_raise) if isinstance(c.expect_raise, (set, frozenset)) else c.expect_raise
+    return {'op': c.op, 'what': what, 'args': c.desc, 'kind': c.kind, 'expect_raise': exp,
             'sequences': [nswire.encode(s) for s in c.seqs],
             'sequences_b64': [__import__('base64').b64encode(ser(s)).decode() for s in c.seqs]}
 
@@ -711,8 +852,13 @@ def run(chk):
                 'expected_pure': want, 'checker_pure': lean_pure,
                 'write_statements_to_aim_at (source lines)': mine.get('failing_lines_for_any_argument')}
     chk.sample({'static': dict(zip(names, resp))})
-    chk.notes['result_is_newly_allocated (information, not demanded by the statement)'] = {
+    # "documented as returning a NEW NoteSequence": theorem fresh_<op> for every listed operation (Props/C11_ops.lean)
+    chk.notes['result_is_newly_allocated (demanded: theorems fresh_<op>)'] = {
         n: (line.split()[2:3] == ['1']) for n, line in zip(names, resp) if n in PURE_OPS}
+    for n, line in zip(names, resp):
+        if n in PURE_OPS and line.split()[:1] == ['ok'] and line.split()[2:3] != ['1']:
+            chk.disagree('static:checker', {'op': n, 'clause': 'returns a new NoteSequence'},
+                         'documented: returns a new NoteSequence', 'lean checker: the result may be (part of) an argument: ' + line)
 
     # ---- corpus (past failing inputs) first
     import base64
@@ -726,7 +872,8 @@ def run(chk):
             s_.ParseFromString(base64.b64decode(b))
             seqs.append(s_)
         c = rebuild_case(sl, obj['op'], seqs, obj.get('args') or {})
-        c.kind, c.expect_raise = obj.get('kind', 'any'), obj.get('expect_raise')
+        if c.op != 'concatenate_sequences':          # (its expectation is recomputed from the documented behaviour)
+            c.kind, c.expect_raise = obj.get('kind', 'any'), obj.get('expect_raise')
         fails, label = run_case(c)
         chk.count('corpus', fname, not fails, ['outcome:' + label])
         for what in fails:
@@ -784,7 +931,8 @@ def replay(chk, obj):
         s.ParseFromString(base64.b64decode(b))
         seqs.append(s)
     c = rebuild_case(sl, obj['op'], seqs, obj.get('args') or {})
-    c.kind, c.expect_raise = obj.get('kind', 'any'), obj.get('expect_raise')
+    if c.op != 'concatenate_sequences':
+        c.kind, c.expect_raise = obj.get('kind', 'any'), obj.get('expect_raise')
     fails, label = run_case(c)
     print('outcome:', label)
     for f in fails:
@@ -820,5 +968,8 @@ def rebuild_case(sl, op, seqs, a):
         'rectify_beats': lambda: sl.rectify_beats(ns, a['bpm']),
     }
     mult = None if op in ('repeat_sequence_to_duration', 'expand_section_groups') or len({id(s) for s in seqs}) < len(seqs) else 1
-    return Case(op, seqs, calls[op], 'any', quantized=q, max_mult=mult,
-                pitch_shift=a.get('amount') if op == 'transpose_note_sequence' else None, desc=a)
+    c = Case(op, seqs, calls[op], 'any', quantized=q, max_mult=mult,
+             pitch_shift=a.get('amount') if op == 'transpose_note_sequence' else None, desc=a)
+    if op == 'concatenate_sequences':
+        c.expect_raise, c.kind = concat_expectation(sl, seqs, a.get('durations'))
+    return c
